@@ -196,6 +196,14 @@ instance [LinOrd α] [LinOrd β] : LinOrd (α × β) where
     | .eq => LinOrd.cmp a.2 b.2
     | o => o
 
+/-- `Dual<T>` as an `Ord` type (a component of a lexicographic tuple, the content of an `OrdLattice`): `impl Ord for Dual<T>` is
+`other.0.cmp(&self.0)`, consistent with its `PartialOrd` -/
+structure DualLin (α : Type) where
+  val : α
+deriving DecidableEq, Repr
+
+instance [LinOrd α] : LinOrd (DualLin α) := ⟨fun a b => LinOrd.cmp b.val a.val⟩
+
 structure LexTuple (β : Type) where
   val : β
 deriving DecidableEq, Repr
